@@ -73,6 +73,17 @@ func (c *Calcium) RemoveNode(ctx context.Context, nodename string) error {
 		return types.ErrEmptyNodeName
 	}
 	return c.withNodePodLocked(ctx, nodename, func(ctx context.Context, node *types.Node) error {
+		// the node was fetched before the pod lock was taken: it may have been removed (and added again) meanwhile
+		podname := node.Podname
+		node, err := c.store.GetNode(ctx, nodename)
+		if err != nil {
+			logger.Error(ctx, err)
+			return err
+		}
+		if node.Podname != podname {
+			logger.Error(ctx, types.ErrNodeNotExists)
+			return types.ErrNodeNotExists
+		}
 		workloads, err := c.ListNodeWorkloads(ctx, node.Name, nil)
 		if err != nil {
 			logger.Error(ctx, err)
